@@ -205,6 +205,22 @@ def _cases(ctx):
                                 [int(x) * 60 for x in rng.integers(-2400, 2400, size=6)] + [int(x) for x in rng.integers(-140000, 140000, size=12)]}
     yield 'sim_time', {'scale': 'default', 'ref': '1979-01-01T06:30', 'start': '1979-01-03T00:00', 'step_min': int(rng.integers(1, 720)), 'n': 5}
     yield 'sim_time', {'scale': 'hour', 'ref': '2000-02-29T12:34', 'start': '2000-01-31T23:59', 'step_min': 90, 'n': 3}
+    # unevenly spaced axes: monthly stamps, a missing day, irregular minutes
+    monthly = [int((np.datetime64('2001-%02d-01T00:00' % m, 'm') - np.datetime64('2001-01-01T00:00', 'm')) / np.timedelta64(1, 'm')) for m in range(1, 8)]
+    yield 'sim_time', {'scale': 'default', 'ref': '2000-12-31T18:00', 'start': '2001-01-01T00:00', 'offsets': monthly, 'n': len(monthly)}
+    yield 'sim_time', {'scale': 'default', 'ref': '1979-01-01T06:30', 'start': '1979-01-10T00:00', 'offsets': [0, 1440, 2880, 5760, 7200], 'n': 5}
+    irr = sorted({int(x) for x in rng.integers(0, 20000, size=6)} | {0})
+    yield 'sim_time', {'scale': 'hour', 'ref': '2000-02-29T12:34', 'start': '2000-02-27T03:17', 'offsets': irr, 'n': len(irr)}
+    # process time zones with daylight saving (the other runners run in the sandbox's zone)
+    for tz, sw in [('America/New_York', ['2021-03-14T07:00', '2021-11-07T06:00']), ('CET-1CEST,M3.5.0,M10.5.0/3', ['2021-03-28T01:00', '2021-10-31T01:00']),
+                   ('Australia/Sydney', ['2021-04-03T16:00', '2021-10-02T16:00'])]:
+        stamps = []
+        for x in sw:
+            for off in (-90, -1, 0, 61, 90):
+                stamps.append(str(np.datetime64(x, 'm') + np.timedelta64(off, 'm')))
+        for _ in range(6):
+            stamps.append(str(np.datetime64('1990-01-01T00:00', 'm') + np.timedelta64(int(rng.integers(0, 40 * 525600)), 'm')))
+        yield 'timezones', {'tz': tz, 'scale': 'default', 'stamps': stamps}
     yield 'purity', {'refs': ['1979-03-05T07:30', '2024-02-29T12:00'], 't': [float(x) for x in rng.uniform(-1e4, 1e4, size=6)],
                      's': [int(x) for x in rng.integers(-10 ** 6, 10 ** 6, size=50)]}
     # ---- Part C: phases
@@ -526,8 +542,12 @@ def _e_td_ints(a): return ['map (dim_td %s) %s' % (_hexlit(_specs(a['scale'])[2]
 def _e_dt_axis(a):
     steps = [int(x) for x in a['M'] if x > 0][:6]
     return ['map (nondim_td %s) %s' % (_hexlit(_specs(a['scale'])[2]), _zl([st * 60 for st in steps]))]
+def _sim_times(a):
+    if 'offsets' in a:
+        return np.datetime64(a['start'], 'm') + np.asarray(a['offsets'], dtype=np.int64).astype('timedelta64[m]')
+    return np.datetime64(a['start']) + np.arange(a['n']) * np.timedelta64(a['step_min'], 'm')
 def _e_sim_time(a):
-    ref = np.datetime64(a['ref']); times = np.datetime64(a['start']) + np.arange(a['n']) * np.timedelta64(a['step_min'], 'm')
+    ref = np.datetime64(a['ref']); times = _sim_times(a)
     return ['map (dt_trace %s) %s' % (_hexlit(_specs(a['scale'])[2]), _zl([int(x) for x in ((times - ref) / np.timedelta64(1, 'm'))]))]
 def _e_time_axis(a): return ['map (nondim_td %s) %s' % (_hexlit(_specs(a['scale'])[2]), _zl(a['steps']))]
 EXPRS = {'td_forms': lambda a: _e_td_trace(a) + _e_td_ints(a), 'dt_forms': lambda a: _e_dt_trace(a) + _e_dt_axis(a), 'sim_time': _e_sim_time,
@@ -893,7 +913,7 @@ def r_sim_time(ctx, a):
     xu = J()[2]
     specs, S, T = _specs(a['scale'])
     ref = np.datetime64(a['ref']); n = a['n']
-    times = np.datetime64(a['start']) + np.arange(n) * np.timedelta64(a['step_min'], 'm')
+    times = _sim_times(a)
     M = [int(x) for x in ((times - ref) / np.timedelta64(1, 'm'))]
     res = coq_eval(ctx, _e_sim_time(a))[0]
     if res is None or len(res) != 3 * n:
@@ -902,6 +922,14 @@ def r_sim_time(ctx, a):
     ds = xarray.Dataset({'a': (('time', 'x'), np.zeros((n, 2)))}, coords={'time': times})
     out = xu.with_sim_time(ds, specs, ref)
     _bits_equal('with_sim_time: sim_time of a datetime64 axis', ctx, out.sim_time.values, want)
+    for unit in ('ns', 's', 'm'):       # entry k of sim_time must be the model time of entry k of the (possibly uneven) axis
+        dsu = xarray.Dataset({'a': (('time',), np.zeros(n))}, coords={'time': times.astype('datetime64[%s]' % unit)})
+        st = np.asarray(xu.with_sim_time(dsu, specs, ref).sim_time.values, dtype=np.float64)
+        back = xu.nondim_time_to_datetime64(st, specs, ref.astype('datetime64[m]'))
+        bad = [k for k in range(n) if back[k] != times[k].astype('datetime64[m]')] if st.shape == (n,) else ['shape']
+        ctx.oracle('sim_time[k] is the model time of time[k]: nondim_time_to_datetime64 recovers every stamp at minute resolution',
+                   not bad, {'unit': unit, 'k': bad[:3], 'time': [str(x) for x in times], 'recovered': [str(x) for x in back]})
+        _bits_equal('with_sim_time: sim_time of a datetime64[%s] axis, entry by entry' % unit, ctx, st, want)
     ctx.exact('with_sim_time: dims', list(out.sim_time.dims), ['time'])
     ds2 = xarray.Dataset({'a': (('sample', 'time'), np.zeros((3, n)))}, coords={'time': times, 'sample': [0, 1, 2]})
     out2 = xu.with_sim_time(ds2, specs, ref)
@@ -913,6 +941,74 @@ def r_sim_time(ctx, a):
     dsf = xarray.Dataset({'a': (('time',), np.zeros(n))}, coords={'time': np.linspace(0.0, 1.0, n)})
     ctx.exact('with_sim_time: float time is already non-dimensional', xu.with_sim_time(dsf, specs, ref).sim_time.values.tolist(), np.linspace(0.0, 1.0, n).tolist())
     ctx.exact('ds_with_sim_time alias', xu.ds_with_sim_time is xu.with_sim_time, True)
+
+
+def r_timezones(ctx, a):
+    """The conversions must not depend on the time zone of the process: TZ is set to a zone with
+    daylight saving, the calendar <-> model-time round trip, datetime64-vs-datetime equality and the
+    phase oracles are evaluated with np.datetime64 and datetime.datetime in every argument
+    position, and the zone is restored afterwards."""
+    import time as _time
+    scales, pe, xu, radiation = J()
+    specs, S, T = _specs(a['scale'])
+    Ti = _T_independent(a['scale']); twopi = 2 * np.pi
+    old = os.environ.get('TZ')
+    try:
+        os.environ['TZ'] = a['tz']; _time.tzset()
+        ctx.count('tz:utc_offset_s=%d' % (-_time.timezone))
+        st64 = [np.datetime64(x, 'm') for x in a['stamps']]
+        epoch = datetime.datetime(1970, 1, 1)
+        stdt = [epoch + datetime.timedelta(minutes=int((x - np.datetime64('1970-01-01T00:00', 'm')) / np.timedelta64(1, 'm'))) for x in st64]
+        for x64, xdt in zip(st64, stdt):
+            got = radiation.datetime64_to_datetime(x64)
+            ctx.oracle('datetime64_to_datetime returns the same (UTC, naive) calendar stamp in every process time zone',
+                       got == xdt, {'tz': a['tz'], 'stamp': str(x64), 'got': got.isoformat()})
+        from dinosaur import coordinate_systems, spherical_harmonic, sigma_coordinates
+        coords = coordinate_systems.CoordinateSystem(spherical_harmonic.Grid.with_wavenumbers(8), sigma_coordinates.SigmaCoordinates.equidistant(1))
+        n = len(st64)
+        for i in range(n):
+            j = (i + 1) % n if i % 2 else (i + 5) % n       # neighbours across a switch and far-apart pairs
+            w64, wdt, r64, rdt = st64[i], stdt[i], st64[j], stdt[j]
+            mins = int((w64 - r64) / np.timedelta64(1, 'm'))
+            tt_ind = mins * 60.0 / Ti
+            vals = {}
+            for nm, w, r in (('when64/ref64', w64, r64), ('when64/refdt', w64, rdt), ('whendt/ref64', wdt, r64), ('whendt/refdt', wdt, rdt)):
+                v = float(radiation.datetime_to_time(w, specs, r)); vals[nm] = v
+                det = {'tz': a['tz'], 'when': str(w64), 'reference': str(r64), 'types': nm, 'time': v, 'expected': tt_ind}
+                ctx.oracle('datetime_to_time = elapsed seconds / T for datetime64 and datetime arguments alike, in every process time zone',
+                           abs(v - tt_ind) <= 2.0 ** -40 * (abs(tt_ind) + 1.0), det)
+                back = xu.nondim_time_to_datetime64(np.asarray([v]), specs, r64)[0]
+                ctx.oracle('calendar times survive the model-time round trip at minute resolution', back == w64,
+                           dict(det, recovered=str(back)))
+            ctx.oracle('a datetime64 stamp and the equal datetime stamp give the same model time',
+                       len({x.hex() for x in vals.values()}) == 1, {'tz': a['tz'], 'when': str(w64), 'reference': str(r64), 'times': vals})
+            # pure numpy helpers under the same zone
+            nd = xu.datetime64_to_nondim_time(np.asarray([w64]), specs, r64)
+            ctx.oracle('calendar times survive the model-time round trip at minute resolution',
+                       xu.nondim_time_to_datetime64(nd, specs, r64)[0] == w64, {'tz': a['tz'], 'when': str(w64), 'reference': str(r64), 'via': 'xarray_utils'})
+            if i % 3 == 0:
+                # phases against elapsed time and the calendar, reference given in both types
+                fod = (60 * rdt.hour + rdt.minute) / 1440.0
+                leap = (rdt.year % 4 == 0 and (rdt.year % 100 != 0 or rdt.year % 400 == 0))
+                ref_o = twopi * ((rdt.date() - datetime.date(rdt.year, 1, 1)).days + fod) / (366 if leap else 365); ref_s = twopi * fod
+                cal_s = twopi * (60 * wdt.hour + wdt.minute) / 1440.0
+                for nm, r in (('ref64', r64), ('refdt', rdt)):
+                    sr = radiation.SolarRadiation(coords, specs, r)
+                    got_ref = [float(sr.reference_orbital_time.orbital_phase), float(sr.reference_orbital_time.synodic_phase)]
+                    ctx.oracle('reference phases equal their calendar definitions in every process time zone',
+                               abs(got_ref[0] - ref_o) <= 2.0 ** -40 * twopi and abs(got_ref[1] - ref_s) <= 2.0 ** -40 * twopi,
+                               {'tz': a['tz'], 'reference': str(r64), 'type': nm, 'got': got_ref, 'expected': [ref_o, ref_s]})
+                    for wn, w in (('when64', w64), ('whendt', wdt)):
+                        tt = float(sr.datetime_to_time(w))
+                        ps = float(sr.time_to_orbital_time(tt).synodic_phase)
+                        dd = (ps - cal_s) / twopi
+                        ctx.oracle('synodic phase of elapsed time agrees with the calendar (mod 2 pi)',
+                                   abs(dd - round(dd)) * twopi <= 2.0 ** -30 * (abs(twopi * Ti / 86400.0 * tt) + twopi),
+                                   {'tz': a['tz'], 'when': str(w64), 'reference': str(r64), 'types': wn + '/' + nm, 'phase': ps, 'calendar_phase': cal_s})
+    finally:
+        if old is None: os.environ.pop('TZ', None)
+        else: os.environ['TZ'] = old
+        _time.tzset()
 
 
 def r_purity(ctx, a):
@@ -1087,7 +1183,7 @@ def r_calendar_phase(ctx, a):
         ctx.exact('datetime64_to_datetime', d64.isoformat(), d.isoformat())
 
 
-RUNNERS = {'offset_units': r_offset_units, 'scale_api': r_scale_api, 'td_forms': r_td_forms, 'dt_forms': r_dt_forms,
+RUNNERS = {'timezones': r_timezones, 'offset_units': r_offset_units, 'scale_api': r_scale_api, 'td_forms': r_td_forms, 'dt_forms': r_dt_forms,
            'sim_time': r_sim_time, 'purity': r_purity, 'units': r_units, 'td_dim': r_td_dim, 'td_dense': r_td_dense, 'td_trace': r_td_trace, 'td_oracle': r_td_oracle,
            'dt_trace': r_dt_trace, 'dt_dense': r_dt_dense, 'dt_oracle': r_dt_oracle, 'time_axis': r_time_axis,
            'phase': r_phase, 'calendar_phase': r_calendar_phase}
